@@ -769,3 +769,80 @@ class AbstractExcelInPython(ABC):
             pass
 
         return '#VALUE!'
+
+    def _network_days(self, date_start: datetime.datetime, date_end: datetime.datetime,
+                      holidays: List[List[datetime.datetime]] | None = None):
+        # Большая загадка как вычисляется значение если на входе не даты - поэтому я решила просто кидать '#VALUE!'
+        if not isinstance(date_start, datetime.datetime) or not isinstance(date_end, datetime.datetime):
+            return '#VALUE!'
+
+        work_days_count = 0
+        if date_start.date() <= date_end.date():
+            start = date_start.date()
+            end = date_end.date()
+            multiple = 1
+        else:
+            start = date_end.date()
+            end = date_start.date()
+            multiple = -1
+
+        additional_days = []
+        if holidays:
+            for row in holidays:
+                additional_days_in_row = [day.date() for day in row if isinstance(day, datetime.datetime)] \
+                    if row is not None else []
+                additional_days += additional_days_in_row
+
+        while start <= end:
+            if start.weekday() not in [5, 6] and start not in additional_days:
+                work_days_count += 1
+            start = start + datetime.timedelta(days=1)
+
+        return work_days_count * multiple
+
+    def _index(self, matrix_list: tuple | list, row_number: int, column_number: int | None, area_number: int):
+        if area_number > len(matrix_list):
+            return '#REF!'
+
+        # a negative index must not wrap around to the end of the area
+        if (row_number is not None and row_number < 0) or (column_number is not None and column_number < 0):
+            return '#REF!'
+
+        # Если пришел кортеж, значит имеем дело с несколькими диапазонами, берем заданный в area_number, по умолчанию 1
+        array = matrix_list[area_number - 1] if isinstance(matrix_list, tuple) else matrix_list
+        
+        # Если диапазон - строка и указан только номер строки, считаем его номером столбца
+        if len(array) == 1 and column_number is None:
+            column_number = row_number
+            row_number = None
+
+        try:
+            # Если не указаны номер столбца/строки, берем значения из всех столбцов/строк
+            row = [array[row_number - 1]] if row_number else array
+            value = [col[column_number - 1] if column_number else col for col in row]
+        except IndexError:
+            return '#REF!'
+
+        # Для диапазона типа столбец значения будут в конструкции [[x], [y], [z]], приводим к аналогу строки - [x, y, z]
+        if isinstance(value[0], list) and len(value[0]) == 1:
+            value = [row[0] for row in value]
+
+        return value[0] if len(value) == 1 else value
+
+    def _cell_preprocessor(self, cell_uid: str):
+        # Ищем метод расчета значения ячейки среди методов и аттрибутов экземпляра и класса
+        method = self.__dict__.get(cell_uid, self.__class__.__dict__.get(cell_uid))
+        # Ищем значение значение ячейки среди установленных в ручную через set_cells, если не находим, считаем результат
+        # с помощью найденного выше метода, если же не найден и метод, возвращаем "пустую ячейку"
+        # an overridden cell is a constant: its original formula must not even be evaluated (it may fail)
+        if cell_uid in self._arguments:
+            return self._arguments[cell_uid]
+
+        return method(self) if method else self.EmptyCell()
+
+    def exec_function_in(self, cell_uid: str):
+        return self._cell_preprocessor(cell_uid)
+
+    @staticmethod
+    def _today() -> datetime.date:
+        return datetime.datetime.combine(datetime.date.today(), datetime.time(0, 0))
